@@ -43,6 +43,8 @@ type Keys struct {
 func WaitAvailableKeys(keys *Keys, cfg *inputrc.Config) {
 	keys.cfg = cfg
 
+	YieldPoint("wait.entry")
+
 	if len(keys.buf) > 0 && !keys.mustWait {
 		return
 	}
@@ -57,6 +59,8 @@ func WaitAvailableKeys(keys *Keys, cfg *inputrc.Config) {
 	keys.cursor = make(chan []byte)
 	keys.mutex.Unlock()
 
+	YieldPoint("wait.waiting")
+
 	defer func() {
 		keys.mutex.Lock()
 		keys.waiting = false
@@ -68,6 +72,7 @@ func WaitAvailableKeys(keys *Keys, cfg *inputrc.Config) {
 		// We will either read keyBuf from user, or an EOF
 		// send by ourselves, because we pause reading.
 		keyBuf, err := keys.readInputFiltered()
+		YieldPoint("wait.read.returned")
 		if err != nil && errors.Is(err, io.EOF) {
 			return
 		}
@@ -78,7 +83,9 @@ func WaitAvailableKeys(keys *Keys, cfg *inputrc.Config) {
 
 		switch {
 		case keys.reading:
+			YieldPoint("wait.keysonce.before")
 			keys.keysOnce <- keyBuf
+			YieldPoint("wait.keysonce.after")
 			continue
 
 		default:
@@ -210,6 +217,8 @@ func (k *Keys) ReadKey() (key rune, isAbort bool) {
 	k.reading = true
 	k.mutex.RUnlock()
 
+	YieldPoint("readkey.entry")
+
 	defer func() {
 		k.mutex.RLock()
 		k.reading = false
@@ -223,9 +232,11 @@ func (k *Keys) ReadKey() (key rune, isAbort bool) {
 
 	case k.waiting:
 		buf := <-k.keysOnce
+		YieldPoint("readkey.keysonce.received")
 		key = []rune(string(buf))[0]
 	default:
 		buf, _ := k.readInputFiltered()
+		YieldPoint("readkey.read.returned")
 		key = []rune(string(buf))[0]
 	}
 
